@@ -82,6 +82,10 @@ Definition apply_op (lenlim limit : Z) (st : list lkv * nat) (o : op) : list lkv
 Definition run_spec (lenlim limit : Z) (ops : list op) : list lkv * nat :=
   fold_left (apply_op lenlim limit) ops ([], 0%nat).
 
+(** Emitting a record with attributes offers them one by one; the processors' calls follow. *)
+Definition run_spec_emit (lenlim limit : Z) (init : list lkv) (ops : list op) : list lkv * nat :=
+  fold_left (apply_op lenlim limit) ops (fold_left (offer lenlim limit) init ([], 0%nat)).
+
 (** The attributes offered since the record was last reset by SetAttributes. *)
 Definition effective (ops : list op) : list lkv :=
   fold_left (fun acc o => match o with OSet a => a | OAdd a => acc ++ a end) ops [].
